@@ -11,7 +11,8 @@
 //                             piv <m ints> ; L <m*n hex> ; U <n*n hex> ; det <hex>
 //   solve mb nx <mb*nx hex>   solve with the current object; answer  minD <hex> ; X <rows cols> <hex...>
 //   solvev mb <mb hex>        the std::vector overload of solve; answer  minD <hex> ; X <len> 1 <hex...>
-//   inv m n <m*n hex>         MatrixTools::inv; answer as solve
+//   inv m n <m*n hex>         MatrixTools::inv(A, X); answer as solve
+//   invip m n <m*n hex>       X becomes A (class of X), then MatrixTools::inv(X, X); answer as solve
 //   det m n <m*n hex>         MatrixTools::det; answer <hex>
 //   dett n <n*n hex>          MatrixTools::det of A and of its transpose; answer <hex> <hex>
 //   detmul n <A> <B>          MatrixTools::det of A, B and A*B (product formed here, exact for the
@@ -91,6 +92,12 @@ static std::string doOp(St& s, const Toks& t) {
   if (o == "inv") {
     size_t pos = 1; auto A = parse(s.sA, t, pos);
     double d = MatrixTools::inv(*A, *s.X);
+    return "minD " + hx(d) + " ; X " + show(*s.X);
+  }
+  if (o == "invip") {
+    // in-place inverse MatrixTools::inv(A, A): the constructor copies A before O (= A) is resized
+    size_t pos = 1; s.X = parse(s.sX, t, pos);
+    double d = MatrixTools::inv(*s.X, *s.X);
     return "minD " + hx(d) + " ; X " + show(*s.X);
   }
   if (o == "det") {
